@@ -369,6 +369,14 @@ impl ParsedParameters {
             };
         }
 
+        // Unknown ellipsoid names are instantiation time errors: `ellps()` cannot
+        // report them, since it is used where no error value can be returned
+        for (key, value) in &text {
+            if key.starts_with("ellps") {
+                Ellipsoid::named(value)?;
+            }
+        }
+
         // Default gamut elements - traditionally supported for all operators
 
         // omit_fwd and omit_inv are implicitly valid for all ops
